@@ -764,7 +764,7 @@ Section Stable.
       destruct (Nat.leb_spec (scount s1) (off + N.to_nat index)) as [Lc|Lc].
       { unfold i_45. rewrite Ei, Eil. cbv zeta. rewrite E1, Eca.
         destruct (N.eqb_spec is_local 0); [contradiction|]. cbn [negb]. rewrite Eo.
-        destruct (Nat.leb_spec (scount s1) (off + N.to_nat index)); [exact I|lia]. }
+        destruct (Nat.leb_spec (scount s1) (off + N.to_nat index)); [exact H1|lia]. }
       pose proof Hv1 as ((l & Hl) & _). destruct Hl as (Hseg & _).
       destruct (i_45_local_spec P opc ip0 ip s index is_local s1 ca ch car cups off l _
                   Ei Eil Hnz E1 Eca Eo eq_refl Lc Hv1 Hseg) as [Hex Hnew].
@@ -963,7 +963,7 @@ Section Closed.
       destruct (Nat.leb_spec (scount s1) (off + N.to_nat index)) as [Lc|Lc].
       { unfold i_45. rewrite Ei, Eil. cbv zeta. rewrite E1, Eca.
         destruct (N.eqb_spec is_local 0); [contradiction|]. cbn [negb]. rewrite Eo.
-        destruct (Nat.leb_spec (scount s1) (off + N.to_nat index)); [exact I|lia]. }
+        destruct (Nat.leb_spec (scount s1) (off + N.to_nat index)); [exact H1|lia]. }
       pose proof Hv1 as ((l & Hl) & _). destruct Hl as (Hseg & _).
       destruct (i_45_local_spec P opc ip0 ip s index is_local s1 ca ch car cups off l _
                   Ei Eil Hnz E1 Eca Eo eq_refl Lc Hv1 Hseg) as [Hex Hnew].
